@@ -206,4 +206,52 @@ theorem getCachedPlan_of_not_argsOK {g : Graph} {isSub : Bool} {cache : Option C
       exact absurd (ArgsOK_perm hpi.symm hpo.symm (argsOK_of_createPlan_ok hp)) hbad
     · exact hmiss
 
+/-! ## A cache that always sees the same request is transparent
+
+`If` and `Loop` always issue the same `(input_ids, output_ids)` to the graph of a branch / body
+(`If`: no inputs, the branch graph's `output_ids()`; `Loop`: the body graph's input ids in
+order, its `output_ids()`), so the body graph's plan cache only ever sees one request.  For such a
+cache a hit returns *exactly* what `create_plan` returns — not merely some valid plan. -/
+
+theorem sortIds_length (l : List Nat) : (sortIds l).length = l.length := (sortIds_perm l).length_eq
+
+theorem matchesFixed_new (ins outs p : List Nat) :
+    matchesFixed (CachedPlan.new ins outs p) ins outs = true := by
+  simp [matchesFixed, CachedPlan.new, sortIds_length]
+
+/-- **A cache hit on the request the entry was created for returns exactly `create_plan`'s plan**
+(used by C22 for nested runs and by C25 for repeated runs). -/
+theorem getCachedPlan_same_request {g : Graph} {isSub : Bool} {ins outs p : List Nat}
+    (hp : createPlan g ins outs (cacheOpts isSub) = .ok p) :
+    getCachedPlan .fixed g isSub (some (CachedPlan.new ins outs p)) ins outs =
+      (createPlan g ins outs (cacheOpts isSub), some (CachedPlan.new ins outs p)) := by
+  have hm : (CachedPlan.new ins outs p).matches .fixed ins outs = true := matchesFixed_new ins outs p
+  simp only [getCachedPlan, hm, if_true, hp]
+  rfl
+
+/-- The states of a cache that has only ever seen the request `(ins, outs)`. -/
+def FixedCache (g : Graph) (isSub : Bool) (ins outs : List Nat) : Option CachedPlan → Prop
+  | none => True
+  | some c => ∃ p, c = CachedPlan.new ins outs p ∧ createPlan g ins outs (cacheOpts isSub) = .ok p
+
+/-- In such a state `get_cached_plan` for `(ins, outs)` is `create_plan` — hit or miss, success or
+error — and the state stays of that form. -/
+theorem getCachedPlan_fixed_request {g : Graph} {isSub : Bool} {ins outs : List Nat}
+    {cache : Option CachedPlan} (h : FixedCache g isSub ins outs cache) :
+    (getCachedPlan .fixed g isSub cache ins outs).1 = createPlan g ins outs (cacheOpts isSub) ∧
+      FixedCache g isSub ins outs (getCachedPlan .fixed g isSub cache ins outs).2 := by
+  cases cache with
+  | none =>
+    rw [show getCachedPlan .fixed g isSub none ins outs =
+      (match createPlan g ins outs (cacheOpts isSub) with
+        | .ok p => (.ok p, some (CachedPlan.new ins outs p))
+        | .error e => (.error e, none)) from rfl]
+    cases hp : createPlan g ins outs (cacheOpts isSub) with
+    | error e => exact ⟨rfl, trivial⟩
+    | ok p => exact ⟨rfl, p, rfl, hp⟩
+  | some c =>
+    obtain ⟨p, rfl, hp⟩ := h
+    rw [getCachedPlan_same_request hp]
+    exact ⟨rfl, p, rfl, hp⟩
+
 end RtenVerif.PlanCache
